@@ -131,7 +131,10 @@ def load_facts(config="default", src_root=None, min_bodies=MIN_BODIES, workname=
     raw = run_driver(src_root or REPO, config, workname=workname)
     if raw["n_bodies"] < min_bodies:
         raise AnalysisError("only %d bodies analysed, fewer than the floor %d" % (raw["n_bodies"], min_bodies))
-    return Facts(raw)
+    facts = Facts(raw)
+    from . import inline
+    inline.prepare(facts)
+    return facts
 
 
 # ---------------------------------------------------------------------------------------
